@@ -15,6 +15,25 @@ PROPERTIES = {
 }
 
 PROPERTIES.update({
+    "C02": {
+        "verus": ["C02_C05_assembly"],
+        "kani_quick": [], "kani_thorough": [],
+        "unverified": [
+            "the left-to-right parse of component lists (nom combinators in lexer/sequence.rs, lexer/choice.rs)",
+            "emission of one field/variant per member, Option<_>, default fn, Box<_>, set marker, SetOf/SequenceOf selection (generator/rasn/utils.rs, builder.rs: TokenStream code)",
+            "mark_recursive / recurses (validator/linking/mod.rs: iterator closures + BTreeMap)",
+            "link_components_of_notation (appends the copied members at the end of the list)",
+        ],
+    },
+    "C05": {
+        "verus": ["C02_C05_assembly"],
+        "kani_quick": ["k_c03_module_header_from"], "kani_thorough": [],
+        "unverified": [
+            "extension_group parser (lexer/sequence.rs:71-109, nom)",
+            "the `i >= first_extension_index` comparisons and #[non_exhaustive] selection in generator/rasn/utils.rs and builder.rs (TokenStream code)",
+            "EXTENSIBILITY IMPLIED parsing and Rasn::generate_module's per-module reset of the extensibility default",
+        ],
+    },
     "C03": {
         "verus": [],
         "kani_quick": ["k_c03_tagenv_add", "k_c03_asn_tag_from", "k_c03_module_header_from", "k_layout_sentinel_scalars"],
